@@ -201,6 +201,77 @@ Definition spec_round (p s n v : Z) : outcome (Z * Z) :=
   else let r := rha v (10 ^ (s - ns)) in
        if fits p r then Ok (ns, r) else Err.
 
+(* ---------------------------------------------------------------- repaired variants
+   What the five functions compute once they use the checked operations of arith/checked.rs
+   (CheckedArith / CheckedNeg) the way + - * / % do, route an unrepresentable result to an error and
+   sign-fill an over-long right shift.  vlib/tables_numfn.py reads from the source which variant each file
+   has today (gen/TablesNumfn.v); the driver runs that one against the engine.
+     gcd:  Euclid on the signed operands, `b = a.rem_checked(b).unwrap_or(0)`, then |result| via neg_checked
+     lcm:  a.div_checked(gcd).and_then(|q| q.mul_checked(b)), then |.| via neg_checked
+     factorial: negative input and a product that leaves Int128 fail the statement
+     shr:  `None if b > 0 => (a >> (bits - 1)) >> 1`, a negative count still gives 0
+     DecimalToDecimal::bind: scale_diff = src.scale.checked_sub(target.scale) or an error *)
+Definition rem_checked (a b : Z) : option Z := if b =? 0 then None else Some (Z.rem a b).   (* MIN % -1 = 0 *)
+Definition div_checked (w a b : Z) : option Z := if div_fault Signed w a b then None else Some (Z.quot a b).
+Definition mul_checked (w a b : Z) : option Z := if in_range Signed w (a * b) then Some (a * b) else None.
+Definition neg_checked (w a : Z) : option Z := if in_range Signed w (- a) then Some (- a) else None.
+Definition abs_checked (w a : Z) : option Z := if a <? 0 then neg_checked w a else Some a.
+Definition of_opt (o : option Z) : outcome Z := match o with Some v => Ok v | None => Err end.
+
+Fixpoint euclid_c (fuel : nat) (a b : Z) : option Z :=
+  if b =? 0 then Some a else
+  match fuel with
+  | O => None
+  | S f => euclid_c f b (match rem_checked a b with Some r => r | None => 0 end)
+  end.
+
+Definition impl_gcd_c (w a b : Z) : option (outcome Z) :=
+  option_map (fun g => of_opt (abs_checked w g)) (euclid_c (euclid_fuel w) a b).
+
+Definition impl_lcm_c (w a b : Z) : option (outcome Z) :=
+  if (a =? 0) || (b =? 0) then Some (Ok 0) else
+  option_map (fun g => of_opt (match div_checked w a g with
+                               | Some q => match mul_checked w q b with Some v => abs_checked w v | None => None end
+                               | None => None
+                               end))
+             (euclid_c (euclid_fuel w) a b).
+
+Definition impl_factorial_c (n : Z) : option (outcome (option Z)) :=
+  if n <? 0 then Some Err
+  else if (n =? 0) || (n =? 1) then Some (Ok (Some 1))
+  else match fact_loop fact_fuel 2 n 1 with
+       | None => None
+       | Some (Some r) => Some (Ok (Some r))
+       | Some None => Some Err
+       end.
+
+Definition impl_shr_c (sg : sgn) (w a b : Z) : outcome Z :=
+  let n := as_u32 b in
+  if n <? w then Ok (a / 2 ^ n) else if 0 <? b then Ok ((a / 2 ^ (w - 1)) / 2) else Ok 0.
+
+Definition round_bind_c (kd : dkind) (s n : Z) : outcome (Z * Z * Z) :=
+  if in_range Signed 8 n then
+    let ns := Z.min n s in
+    bind_out (if in_range Signed 8 (s - ns) then Ok (s - ns) else Err) (fun diff =>
+    bind_out (checked kd (10 ^ Z.abs diff)) (fun amount => Ok (ns, diff, amount)))
+  else Err.
+Definition impl_round_c (kd : dkind) (p s n v : Z) : outcome (Z * Z) :=
+  bind_out (round_bind_c kd s n) (fun b =>
+    let '(ns, diff, amount) := b in
+    bind_out (round_val kd p diff amount v) (fun x => Ok (ns, x))).
+
+(* the variant the source has: Native = as transcribed at the top of this file, Checked = repaired *)
+Definition impl_gcd_src (st : style) (m : mode) (w a b : Z) : option (outcome Z) :=
+  match st with Native => impl_gcd m w a b | Checked => impl_gcd_c w a b end.
+Definition impl_lcm_src (st : style) (m : mode) (w a b : Z) : option (outcome Z) :=
+  match st with Native => impl_lcm m w a b | Checked => impl_lcm_c w a b end.
+Definition impl_factorial_src (st : style) (n : Z) : option (outcome (option Z)) :=
+  match st with Native => impl_factorial n | Checked => impl_factorial_c n end.
+Definition impl_shr_src (st : style) (sg : sgn) (w a b : Z) : outcome Z :=
+  match st with Native => impl_shr sg w a b | Checked => impl_shr_c sg w a b end.
+Definition impl_round_src (st : style) (m : mode) (kd : dkind) (p s n v : Z) : outcome (Z * Z) :=
+  match st with Native => impl_round m kd p s n v | Checked => impl_round_c kd p s n v end.
+
 (* ---------------------------------------------------------------- abs sign ceil floor trunc round
    on integers and decimals: computed in binary64 *)
 Inductive fop := FAbs | FSign | FCeil | FFloor | FTrunc | FRound.
